@@ -794,6 +794,11 @@ func (m *StateMachine) sendInitialActionSet(ctx context.Context) (
 		rlc.Reset(ctx, initRE.H, initRE.R)
 		rlc.HeightCommitted = hc
 
+		// As when the mirror answers a later round entrance with a committed header:
+		// the finalization request names the round the header was committed in,
+		// which need not be the round we entered, and handleFinalization has to know that.
+		rlc.MarkCatchingUp()
+
 		// This is a replay, so we can just tell the driver to finalize it.
 		finReq := tmdriver.FinalizeBlockRequest{
 			Header: rer.CH.Header,
